@@ -16,7 +16,7 @@ PROP = "C08"
 LEVEL = "exploration"
 SHARDS = {"quick": 8, "thorough": 16}
 TIMEOUT = {"quick": 900, "thorough": 7200}
-REQUIRED = {"request_size": 50, "kernel_request_size": 5, "prng_reset": 50, "tape_replay": 50, "bit_variation": 5, "no_repeat": 5, "mixed_history": 20}
+REQUIRED = {"request_size": 50, "kernel_request_size": 5, "prng_reset": 50, "tape_replay": 50, "bit_variation": 5, "no_repeat": 5, "mixed_history": 20, "config_request_size": 90}
 ANCHORS = ['bip39:mnemonic_from_entropy_bits', 'base_wallet:BaseWallet.new_wallet', 'base_wallet:BaseWallet.from_entropy_bits']
 RULE = ("histories of consecutive new_wallet / mnemonic_from_entropy_bits calls over all five lengths in one process, "
         "interleaved with random.seed / random.random noise and wall-clock changes; four observers: in-process request size "
@@ -39,6 +39,7 @@ CHILD = r'''
 import os, sys
 sys.path.insert(0, %(repo)r)
 from btc_hd_wallet.base_wallet import BaseWallet
+from btc_hd_wallet.paper_wallet import PaperWallet
 from btc_hd_wallet.bip39 import mnemonic_from_entropy_bits
 fd = os.open("/dev/null", os.O_WRONLY)
 for L, ent in ((12,128),(15,160),(18,192),(21,224),(24,256)):
@@ -48,6 +49,12 @@ for L, ent in ((12,128),(15,160),(18,192),(21,224),(24,256)):
         os.write(fd, b"VPMARK end\n")
         os.write(fd, b"VPMARK begin bits %%d\n" %% L)
         mnemonic_from_entropy_bits(entropy_bits=ent)
+        os.write(fd, b"VPMARK end\n")
+        os.write(fd, b"VPMARK begin paper_testnet %%d\n" %% L)
+        PaperWallet.new_wallet(mnemonic_length=L, testnet=True, password="pw")
+        os.write(fd, b"VPMARK end\n")
+        os.write(fd, b"VPMARK begin base_testnet %%d\n" %% L)
+        BaseWallet.from_entropy_bits(entropy_bits=ent, testnet=True)
         os.write(fd, b"VPMARK end\n")
 '''
 
@@ -128,6 +135,8 @@ def kernel_bytes(api, L):
     if res is None:
         return None, err
     key = "new_wallet" if api != "bits" else "bits"
+    if api in ("paper_testnet", "base_testnet"):
+        key = api
     vals = [b for a, w, b, _c in res if a == key and w == L]
     return (min(vals) if vals else None), None
 
@@ -249,6 +258,49 @@ def judge_variation(ctx, L, K, apis):
     ctx.extra["fresh_entropies_decoded"] = ctx.extra.get("fresh_entropies_decoded", 0) + K
 
 
+def judge_config(ctx, case):
+    """Configuration cross-product: wallet class x network x length x passphrase x entry point (incl. the CLI's `new`
+    executed in-process): every cell must pull >= ENT/8 bytes from the OS for the wallet it creates."""
+    import contextlib
+    import io
+    import runpy
+    from btc_hd_wallet.base_wallet import BaseWallet
+    from btc_hd_wallet.paper_wallet import PaperWallet
+    L, tn, pw, entry = case["words"], case["testnet"], case["password"], case["entry"]
+    need = ENT[L] // 8
+    cls_ = PaperWallet if case["cls"] == "Paper" else BaseWallet
+    random.seed(99)
+    with inject.EntropyTap("observe") as tap:
+        if entry == "new_wallet":
+            cls_.new_wallet(mnemonic_length=L, password=pw, testnet=tn)
+        elif entry == "from_entropy_bits":
+            cls_.from_entropy_bits(entropy_bits=ENT[L], password=pw, testnet=tn)
+        else:
+            argv = ["--interval", "0", "0"] + (["--testnet"] if tn else []) + ["new", "--mnemonic-len", str(L)] + (["--password", pw] if pw else [])
+            old = sys.argv
+            sys.argv = ["__main__.py"] + argv
+            try:
+                with contextlib.redirect_stdout(io.StringIO()), contextlib.redirect_stderr(io.StringIO()):
+                    try:
+                        runpy.run_module("btc_hd_wallet", run_name="__main__", alter_sys=False)
+                    except SystemExit:
+                        pass
+            finally:
+                sys.argv = old
+    got = tap.total
+    cls = "cfg|%s|%s|%d|%s|%s" % (case["cls"] if entry != "cli" else "cli", "test" if tn else "main", L, "pw" if pw else "nopw", entry)
+    if got >= need:
+        return ctx.judge("config_request_size", True, case, ">= %d" % need, got, cls=cls, outcome="inproc")
+    if not tap.requests:
+        # nothing went through the Python-level doors: only the kernel observer could tell (it covers Base/Paper x testnet)
+        kb, err = kernel_bytes("paper_testnet" if (case["cls"] == "Paper" and tn) else ("base_testnet" if tn else "new_wallet"), L)
+        if kb is None:
+            ctx.note_inconclusive("configuration %s bypasses the Python-level CSPRNG doors and the kernel observer is unavailable (%s)" % (cls, err))
+            return None
+        return ctx.judge("config_request_size", kb >= need, case, ">= %d" % need, {"kernel_bytes": kb}, cls=cls, outcome="kernel", mech="C08.config.too_small")
+    return ctx.judge("config_request_size", False, case, ">= %d bytes from the OS" % need, {"requested": tap.requests}, cls=cls, mech="C08.config.too_small")
+
+
 def judge_mixed_history(ctx, case):
     """A history of fresh mnemonics of MIXED lengths in one process: no two of them may share any 8-byte window of
     entropy (a pool / buffer that hands the same OS bytes out twice shows up here even when whole entropies differ),
@@ -301,6 +353,12 @@ def run(ctx):
             t1, ttag = rnd.getrandbits(8 * need).to_bytes(need, "big"), "random"
         t2 = bytes([t1[0] ^ 0x80]) + t1[1:] if j % 2 else t1[:-1] + bytes([t1[-1] ^ 1])
         judge_tape(ctx, {"api": apis[j % 3], "words": L, "tape1": t1, "tape2": t2, "ttag": ttag})
+    cells = [(c, t, L, p, e) for c in ("Base", "Paper") for t in (False, True) for L in LENGTHS for p in ("", "pass phrase")
+             for e in ("new_wallet", "from_entropy_bits")] + [("Paper", t, L, p, "cli") for t in (False, True) for L in LENGTHS for p in ("", "x")]
+    for rep in range(1 if not ctx.thorough else 20):
+        for ci, (c, t, L, p, e) in enumerate(cells):
+            if ctx.mine(ci + rep):
+                judge_config(ctx, {"cls": c, "testnet": t, "words": L, "password": p, "entry": e})
     for _ in range(ctx.scale(40, 2000)):
         n_calls = rnd.choice([4, 6, 9, 17, 33])
         calls = [(rnd.choice(["bits", "bits", "new_wallet"]), rnd.choice(LENGTHS)) for _ in range(n_calls)]
@@ -321,6 +379,8 @@ def replay(ctx, monitor, case):
         judge_prng_reset(ctx, case)
     elif monitor == "tape_replay":
         judge_tape(ctx, case)
+    elif monitor == "config_request_size":
+        judge_config(ctx, case)
     elif monitor == "mixed_history":
         case["calls"] = [tuple(c) for c in case["calls"]]
         judge_mixed_history(ctx, case)
